@@ -853,6 +853,120 @@ add('c03-benign-iterate-set-no-exit', 'C03', 'benign', [(CELL, """        for n,
             c = _index2col(n)""")])
 add('c03-benign-list-of-inputs', 'C03', 'benign', [(CELL, """        for links, v in zip(self.inputs.values(), args):""", """        for links, v in zip(list(self.inputs.values()), args):""")])
 
+# ---------------------------------------------------------------- C08
+add('c08-inv-data-loop-dropped', 'C08', 'break', [(EXCEL, """        for i in inputs:
+            inp.update(nodes.get(i, {}).get('inv-data', ()))
+""", "")], expect='C08.unset')
+add('c08-defaults-filter-dropped', 'C08', 'break', [(EXCEL, """        dsp.default_values = {
+            k: v for k, v in dsp.default_values.items() if k not in inp
+        }
+
+        res = dsp()""", """        res = dsp()""")], expect='C08.unset')
+add('c08-evaluate-before-filter', 'C08', 'break', [(EXCEL, """        dsp.default_values = {
+            k: v for k, v in dsp.default_values.items() if k not in inp
+        }
+
+        res = dsp()""", """        res = dsp()
+        dsp.default_values = {
+            k: v for k, v in dsp.default_values.items() if k not in inp
+        }""")], expect='C08.unset')
+add('c08-filter-before-closure', 'C08', 'break', [(EXCEL, """        for i in inputs:
+            inp.update(nodes.get(i, {}).get('inv-data', ()))
+        dsp.default_values = {
+            k: v for k, v in dsp.default_values.items() if k not in inp
+        }
+""", """        dsp.default_values = {
+            k: v for k, v in dsp.default_values.items() if k not in inp
+        }
+        for i in inputs:
+            inp.update(nodes.get(i, {}).get('inv-data', ()))
+""")], expect='C08.unset')
+add('c08-filter-keeps-inputs', 'C08', 'break', [(EXCEL, """            k: v for k, v in dsp.default_values.items() if k not in inp""", """            k: v for k, v in dsp.default_values.items() if k in inp""")], expect='C08.unset')
+add('c08-freeze-overrides-defaults', 'C08', 'break', [(EXCEL, """            if k in dsp.data_nodes and k not in dsp.default_values:
+                dsp.set_default_value(k, v.value)""", """            if k in dsp.data_nodes:
+                dsp.set_default_value(k, v.value)""")], expect='C08.freeze')
+add('c08-outputs-sorted', 'C08', 'break', [(EXCEL, """            inputs=inputs,
+            outputs=outputs
+        )""", """            inputs=inputs,
+            outputs=sorted(outputs)
+        )""")], expect='C08.freeze')
+add('c08-not-reversed', 'C08', 'break', [(EXCEL, """            outputs, graph=dsp.dmap, reverse=True, blockers=res,""", """            outputs, graph=dsp.dmap, reverse=False, blockers=res,""")], expect='C08.freeze')
+add('c08-builder-flag-not-set', 'C08', 'break', [(BUILDER, """        inp[COMPILING] = True
+""", "")], expect='C08')
+add('c08-builder-flag-not-cleared', 'C08', 'break', [(BUILDER, """        res[COMPILING] = False
+""", "")], expect='C08.flag')
+add('c08-builder-flag-cleared-late', 'C08', 'break', [(BUILDER, """        res[COMPILING] = False
+        dsp.nodes.update({k: v.copy() for k, v in dsp.nodes.items()})
+""", """        dsp.nodes.update({k: v.copy() for k, v in dsp.nodes.items()})
+"""), (BUILDER, """        dsp.raises = True
+        dsp.nodes[o]['filters'] = _default_filter()""", """        res[COMPILING] = False
+        dsp.raises = True
+        dsp.nodes[o]['filters'] = _default_filter()""")], expect='C08.flag')
+add('c08-output-first-item', 'C08', 'break', [(BUILDER, """        res, o = dsp(inp), self.get_node_id(self[-1])""", """        res, o = dsp(inp), self.get_node_id(self[0])""")], expect='C08.flag')
+add('c08-formula-inputs-reverse-sorted', 'C08', 'break', [(BUILDER, """        for k in sorted(dsp.data_nodes):
+            if not dsp.dmap.pred[k]:""", """        for k in set(dsp.data_nodes):
+            if not dsp.dmap.pred[k]:""")], expect='C08.order')
+add('c08-benign-rename-inp', 'C08', 'benign', [(EXCEL, """        inp = set(inputs)
+        nodes = dsp.nodes
+        for i in inputs:
+            inp.update(nodes.get(i, {}).get('inv-data', ()))
+        dsp.default_values = {
+            k: v for k, v in dsp.default_values.items() if k not in inp
+        }""", """        free = set(inputs)
+        nodes = dsp.nodes
+        for i in inputs:
+            free.update(nodes.get(i, {}).get('inv-data', ()))
+        dsp.default_values = {
+            k: v for k, v in dsp.default_values.items() if k not in free
+        }""")])
+
+# ---------------------------------------------------------------- C15
+add('c15-cell-inputs-not-pushed', 'C15', 'break', [(EXCEL, """                cell = self.add_cell(sh.await_result(cell), ctx, formula_ranges)
+                if cell:
+                    stack.extend(cell.inputs or ())
+        return self""", """                cell = self.add_cell(sh.await_result(cell), ctx, formula_ranges)
+        return self""")], expect='C15.worklist')
+add('c15-reference-inputs-not-pushed', 'C15', 'break', [(EXCEL, """            if n_id in self.references:
+                stack.extend(self.cells[n_id].inputs or ())
+                continue""", """            if n_id in self.references:
+                continue""")], expect='C15.worklist')
+add('c15-anchor-range-not-pushed', 'C15', 'break', [(EXCEL, """                        outputs=[n_id]
+                    )
+                    stack.append(ref)""", """                        outputs=[n_id]
+                    )""")], expect='C15.worklist')
+add('c15-done-not-marked', 'C15', 'break', [(EXCEL, """                continue
+            done.add(n_id)
+            if n_id in self.references:""", """                continue
+            if n_id in self.references:""")], expect='C15.worklist')
+add('c15-done-not-tested', 'C15', 'break', [(EXCEL, """            if isinstance(n_id, sh.Token) or n_id in done:
+                continue""", """            if isinstance(n_id, sh.Token):
+                continue""")], expect='C15.worklist')
+add('c15-clip-max-instead-of-min', 'C15', 'break', [(EXCEL, """                int(rng['r1']), min(int(rng['r2']), max_row),""", """                int(rng['r1']), max(int(rng['r2']), max_row),""")], expect='C15.worklist')
+add('c15-clip-column-start', 'C15', 'break', [(EXCEL, """                rng['n1'], min(rng['n2'], max_column)""", """                rng['n1'] + 1, min(rng['n2'], max_column)""")], expect='C15.worklist')
+add('c15-from-ranges-ignores-request', 'C15', 'break', [(EXCEL, """    def from_ranges(self, *ranges):
+        return self.complete(ranges)""", """    def from_ranges(self, *ranges):
+        return self.complete()""")], expect='C15.worklist')
+add('c15-add-cell-drops-formulas-too', 'C15', 'break', [(EXCEL, """        if cell.value is not sh.EMPTY:
+            if any(not (cell.range - rng).ranges for rng in formula_ranges):
+                return""", """        if cell.value is not sh.EMPTY:
+            if any(not (cell.range - rng).ranges for rng in formula_ranges):
+                return
+        if cell.output.endswith('1'):
+            return""")], expect='C15.drop')
+add('c15-benign-rename-node-var', 'C15', 'benign', [(EXCEL, """            n_id = stack.pop()
+            if isinstance(n_id, sh.Token) or n_id in done:
+                continue
+            done.add(n_id)
+            if n_id in self.references:
+                stack.extend(self.cells[n_id].inputs or ())
+                continue""", """            n_id = stack.pop()
+            if n_id in done or isinstance(n_id, sh.Token):
+                continue
+            done.add(n_id)
+            if n_id in self.references:
+                stack.extend(self.cells[n_id].inputs or ())
+                continue""")])
+
 if __name__ == '__main__':
     here = os.path.dirname(os.path.abspath(__file__))
     ids = [v['id'] for v in V]
